@@ -17,9 +17,9 @@ var collConc = vkit.NewCollector("C13", "TestConcurrentOutcome", "2-6 goroutines
 
 func TestMain(m *testing.M) { vkit.Main(m) }
 
-func TestFailuresMemory(t *testing.T) { vkit.Check(t, collMem, Gen("memory"), Run) }
+func TestFailuresMemory(t *testing.T)    { vkit.Check(t, collMem, Gen("memory"), Run) }
 func TestConcurrentOutcome(t *testing.T) { vkit.Check(t, collConc, GenConc, RunConc) }
-func TestFailuresSQLite(t *testing.T) { vkit.Check(t, collSQL, Gen("sqlite"), Run) }
+func TestFailuresSQLite(t *testing.T)    { vkit.Check(t, collSQL, Gen("sqlite"), Run) }
 
 func TestReplay(t *testing.T) {
 	r := vkit.NeedReplay(t)
